@@ -19,17 +19,20 @@ Choose ==
     /\ \/ \E d \in Dirs, st \in Stems, e \in Exts : sel' = [k |-> "dash-o", dir |-> d, stem |-> st, ext |-> e]
        \/ \E d \in Dirs, st \in Stems, e \in Exts : sel' = [k |-> "make_bin", dir |-> d, stem |-> st, ext |-> e]
        \/ \E d \in Dirs, st \in Stems, e \in Exts : sel' = [k |-> "make_raw", dir |-> d, stem |-> st, ext |-> e]
+       \/ \E e1 \in {"bin", "dat"}, e2 \in {"raw", "bin"} :       \* two directive outputs: the FIRST one names the listing
+             sel' = [k |-> "two", dir |-> "", stem |-> "first", ext |-> e1, k1 |-> "make_bin", k2 |-> IF e2 = "raw" THEN "make_raw" ELSE "make_bin",
+                     stem2 |-> "second", ext2 |-> e2]
        \/ sel' = [k |-> "make_bin_default"]
        \/ sel' = [k |-> "implicit_bin"]
        \/ sel' = [k |-> "stdout"]
 Spec == Init /\ [][Choose]_<<sel, done>>
 
 Format(s) == CASE s.k = "dash-o"  -> IF s.ext = "bin" THEN "bin" ELSE "raw"       \* -o: bin iff the name ends in .bin
-               [] s.k \in {"make_bin", "make_bin_default", "implicit_bin"} -> "bin"
+               [] s.k \in {"make_bin", "make_bin_default", "implicit_bin", "two"} -> "bin"
                [] s.k = "make_raw" -> "raw"
                [] s.k = "stdout"   -> "raw"
 (* the primary output as [dir, stem, ext]; default names derive from the source 'main.mac' *)
-Output(s) == CASE s.k \in {"dash-o", "make_bin", "make_raw"} -> [dir |-> s.dir, stem |-> s.stem, ext |-> s.ext]
+Output(s) == CASE s.k \in {"dash-o", "make_bin", "make_raw", "two"} -> [dir |-> s.dir, stem |-> s.stem, ext |-> s.ext]
                [] s.k \in {"make_bin_default", "implicit_bin"} -> [dir |-> "", stem |-> "main", ext |-> "bin"]
                [] s.k = "stdout" -> [dir |-> "", stem |-> "-", ext |-> ""]
 Listing(s) == IF s.k = "stdout" THEN [dir |-> "", stem |-> "listing", keep |-> "", ext |-> "lst"]
